@@ -561,10 +561,46 @@ func corpus() []Case {
 	return cs
 }
 
+// edgeCases: workspaces of file_set and bundle rules outside the scope of the
+// Coq model (a file set listing an output file; a rule named like a source
+// file). Only the implementation-only oracle looks at them.
+func edgeCases() []Case {
+	st := func(size int64, tick int64) Stat {
+		return Stat{Size: size, Mtime: (baseTime + tick) * 1000000000, Mode: 0o644}
+	}
+	file := func(name, content string, tick int64) SrcFile {
+		return SrcFile{Name: name, Content: content, Stat: st(int64(len(content)), tick)}
+	}
+	build := func(ts ...string) Op { return Op{K: "build", Targets: ts} }
+	var cs []Case
+	{ // p0/a lists the output of p0/b; p0/b.fileset is overwritten and rebuilt
+		b := Rule{K: "file_set", Dir: "p0", Local: "b", Name: "p0/b", Files: []string{"p0/x.txt"}}
+		a := Rule{K: "file_set", Dir: "p0", Local: "a", Name: "p0/a", Files: []string{"p0/b.fileset"}}
+		n := 7
+		cs = append(cs, Case{Stream: "edge-fileset-lists-output", Pkgs: []string{"p0"}, Rules: []Rule{b, a},
+			Src: []SrcFile{file("p0/x.txt", "one\n", 1)},
+			Ops: []Op{build("p0/a"), {K: "tamper", What: "overwrite-garbage", Out: "p0/b.fileset", Garbage: &n},
+				build("p0/a")}})
+	}
+	{ // a rule named like a source file that a selection of another rule picks up
+		k := Rule{K: "file_set", Dir: "p0", Local: "k.go", Name: "p0/k.go", Files: []string{"p0/a.go"}}
+		x := Rule{K: "file_set", Dir: "p0", Local: "x", Name: "p0/x",
+			Sels: []Sel{{K: "glob", Dir: "p0", Ext: ".go", Raw: "*.go"}}, Include: []string{"p0/k.go"}}
+		s := st(10, 5)
+		cs = append(cs, Case{Stream: "edge-rule-shadows-source", Pkgs: []string{"p0"}, Rules: []Rule{k, x},
+			Src: []SrcFile{file("p0/a.go", "package a\n", 1)},
+			Ops: []Op{build("p0/x"),
+				{K: "src", What: "add", Name: "p0/k.go", Stat: &s, Content: "package k\n"},
+				build("p0/x")}})
+	}
+	return cs
+}
+
 func genCases(seed uint64, thorough bool) []Case {
 	r := hx.NewRng(seed)
 	cs := corpus()
-	n, maxOps := 160, 12
+	cs = append(cs, edgeCases()...)
+	n, maxOps := 320, 12
 	if thorough {
 		n, maxOps = 1500, 40
 	}
